@@ -636,13 +636,42 @@ impl<'a> Exec<'a> {
 
     fn expectation(&self, op: &Op) -> Expect {
         let m = &self.model;
-        let r = |x: Result<TableM, ()>| if x.is_ok() { Expect::Ok } else { Expect::Err };
+        // with two-byte references the pool addresses 65,535 strings; only
+        // the boundary profile pays for counting them
+        let pool_ok = |table: &str, nt: &TableM| -> bool {
+            match (self.limits, m.pool_slots) {
+                (true, Some(cap)) => m.distinct_strings_with(table, nt) <= cap,
+                _ => true,
+            }
+        };
+        let r = |table: &str, x: Result<TableM, ()>| match x {
+            Ok(nt) => {
+                if pool_ok(table, &nt) {
+                    Expect::Ok
+                } else {
+                    Expect::Err
+                }
+            }
+            Err(()) => Expect::Err,
+        };
         match op {
-            Op::CreateTable { name, cols } => m.expect_create_table(name, cols),
+            Op::CreateTable { name, cols } => {
+                let e = m.expect_create_table(name, cols);
+                if e == Expect::Ok && self.limits {
+                    if let Some(cap) = m.pool_slots {
+                        let mut m2 = m.clone();
+                        m2.apply_create_table(name, cols);
+                        if m2.live_strings().len() > cap {
+                            return Expect::Err;
+                        }
+                    }
+                }
+                e
+            }
             Op::DropTable { name } => m.expect_drop_table(name),
-            Op::Insert { table, rows } => r(m.plan_insert(table, rows)),
-            Op::Update { table, sets, cond } => r(m.plan_update(table, sets, cond)),
-            Op::Delete { table, cond } => r(m.plan_delete(table, cond)),
+            Op::Insert { table, rows } => r(table, m.plan_insert(table, rows)),
+            Op::Update { table, sets, cond } => r(table, m.plan_update(table, sets, cond)),
+            Op::Delete { table, cond } => r(table, m.plan_delete(table, cond)),
             Op::WriteStream { name, .. } => m.expect_write_stream(name),
             Op::RemoveStream { name } => m.expect_existing_stream(name),
             Op::SetDbCodepage(cp) | Op::Summary(SumOp::SetCodepage(cp)) => {
@@ -754,6 +783,9 @@ impl<'a> Exec<'a> {
                     // a key update the model refuses (collision) that went through
                     self.viol("C05.unique", "update-key", m.clone());
                 }
+                if self.foreign {
+                    self.viol("C02.edit-preserves", site, m.clone());
+                }
                 self.viol("C20.over-accepted", site, m);
                 self.done = true;
                 return;
@@ -773,6 +805,9 @@ impl<'a> Exec<'a> {
                         if matches!(op, Op::CreateTable { .. }) {
                             self.viol("C06.result", site, m.clone());
                         }
+                    }
+                    if self.foreign {
+                        self.viol("C02.edit-preserves", site, m.clone());
                     }
                     self.viol("C20.within-refused", site, m);
                 }
